@@ -377,6 +377,33 @@ func exec(s *Scenario) (ms []core.Mismatch, skipped bool, evals int64) {
 						}
 					}
 				}
+				// the same map applied by the library itself: Path.Transform (translations and reflections only, the maps the
+				// statement names; quarter turns and the scale 1/2 are left to the re-built path above). Bounds and FastBounds
+				// of the transformed path against the specification's exact box of the image and against the mapped outputs.
+				if s.Emb.Swap == 0 {
+					m := canvas.Matrix{{e.A, 0, e.E}, {0, e.D, e.F}}
+					var rt result
+					okT, pmT := latgeo.Try(func() { rt = run(p0.Copy().Transform(m)) })
+					switch {
+					case !okT:
+						add("bounds:transform-panic+"+kinds, fmt.Sprintf("Transform panics: %v; %s", pmT, desc))
+					case rt.panicB != nil || rt.panicFB != nil:
+						add("bounds:panic-after-transform+"+kinds, fmt.Sprintf("Bounds / FastBounds of the transformed path panics: %v %v; %s", rt.panicB, rt.panicFB, desc))
+					default:
+						for k := 0; k < 4; k++ {
+							evals += 2
+							if boundsOK && ok0 && (hasNaN(rt.b) || sideDev(k, rt.b[k], s.Box[k], tol) != "" || math.Abs(rt.b[k]-r.b[k]) > tol) {
+								add("bounds:not-equivariant-under-transform+"+kinds, fmt.Sprintf("side %s: Bounds of p.Transform(%v) = (%.12g, %.12g)-(%.12g, %.12g), the image of the path has %s (Bounds of the re-built image: (%.12g, %.12g)-(%.12g, %.12g)); %s", sideName[k], m, rt.b[0], rt.b[1], rt.b[2], rt.b[3], exact, r.b[0], r.b[1], r.b[2], r.b[3], desc))
+								break
+							}
+							// FastBounds of the transformed path must still contain the exact box of the image
+							if !hasNaN(r.fb) && (hasNaN(rt.fb) || sideDev(k, rt.fb[k], s.Box[k], tol) == "not-containing") && sideDev(k, r.fb[k], s.Box[k], tol) != "not-containing" {
+								add("fastbounds:not-containing-after-transform+"+kinds, fmt.Sprintf("side %s: FastBounds of p.Transform(%v) = (%.12g, %.12g)-(%.12g, %.12g) does not contain the image, %s; %s", sideName[k], m, rt.fb[0], rt.fb[1], rt.fb[2], rt.fb[3], exact, desc))
+								break
+							}
+						}
+					}
+				}
 				if !hasNaN(r.fb) && !hasNaN(r0.fb) {
 					tf := mapRect(e, r0.fb)
 					for k := 0; k < 4; k++ {
@@ -576,7 +603,7 @@ func (d Driver) Run(c *core.Ctx) error {
 			Workers: 3, HeapGB: 3, Timeout: 30 * time.Minute}}) // no -coverage: the spec has the single action Emit (taken once per scenario) and coverage mode makes the recursive operators >50x slower
 	}
 	allFam := "{1,2,3,4,5,6,7,8,9,10,11,12,13,14,15,16}" // Bounds!XFams: 13-16 = rotated ellipses with eight lattice points
-	small := "{1,2,3,4,5,10,11}"                           // CurveGen families that fit the lattice 0..10
+	small := "{1,2,3,4,5,10,11}"                         // CurveGen families that fit the lattice 0..10
 	all := `{"L","Q","C","A"}`
 	// runs with mc = true check the model-level invariants (box contains all way-points and dyadic points, lo <= hi,
 	// exact sides are attained, two independent on-arc decisions agree, the spec's box is equivariant under the lattice
